@@ -9,11 +9,13 @@ The primitive updates (`sendRequest_lk`, `ping_lk`, `sendSuccess_lk`, `select_lk
 namespace IceProofs.C01Live
 open IceModel.AgentCore IceProofs.C03 IceProofs.Agent
 
-/-- `validateSelectedPair` finds the selected pair's remote candidate heard recently enough: it reports Connected. -/
+/-- `validateSelectedPair` finds the selected pair's remote candidate heard recently enough: it reports Connected; and the
+controlling selector's automatic-renomination block is off (`QuietFor`). -/
 def ValOK (a : Agent) (now : Nat) : Prop :=
-  ∀ p, a.selected.bind a.pairById = some p →
+  (∀ p, a.selected.bind a.pairById = some p →
     stateForDisconnection a.cfg a.connState ((a.remoteOf p.r).bind (silence now))
-      (if a.cfg.failedTimeout != 0 then a.cfg.failedTimeout + a.cfg.disconnectedTimeout else 0) = .connected
+      (if a.cfg.failedTimeout != 0 then a.cfg.failedTimeout + a.cfg.disconnectedTimeout else 0) = .connected) ∧
+  (a.cfg.autoRenom && a.cfg.enableRenomination) = false
 
 /-- the checking deadline does not fire at a tick at `now`. -/
 def CkOK (a : Agent) (now : Nat) : Prop :=
@@ -205,7 +207,7 @@ theorem validateSelected_fst (a : Agent) (t : Nat) (hv : ValOK a t) :
   · rename_i p hp
     right
     simp only []
-    rw [hv p hp]
+    rw [hv.1 p hp]
 
 theorem validateSelected_w (a : Agent) (hv : ValOK a now) : W T0 now ex a (a.validateSelected now).1 := by
   rcases validateSelected_fst a now hv with h | h
@@ -244,11 +246,36 @@ theorem valKeep_w (a : Agent) (hv : ValOK a now) : W T0 now ex a (valKeep a now)
   · exact h1.trans (keepalive_w a1)
   · exact h1
 
+theorem autoRenom_w (a : Agent) : W T0 now ex a (a.autoRenom now).1 := by
+  refine IceProofs.Auto.autoRenom_parts (P := fun x => W T0 now ex a x.1) ?_ a (W.refl a)
+  exact {
+    mark := fun b _ id p h hp hw => h.trans ⟨Fr.modPair b id _ (fun _ => rfl), fun hi =>
+      LK.setState b id .inProgress (by decide) (fun x hx e => by
+        have := pairById_of_mem hi hx
+        rw [e, hp] at this
+        cases this
+        rw [hw]; decide)⟩
+    ping := fun b _ l r h _ _ => h.trans (ping_w b l r)
+    time := fun _ _ h => h.trans (W.of ⟨rfl, rfl, rfl⟩ (LK.of_eq rfl rfl rfl rfl rfl rfl rfl rfl rfl rfl rfl))
+    count := fun _ _ h => h.trans (W.of ⟨rfl, rfl, rfl⟩ (LK.of_eq rfl rfl rfl rfl rfl rfl rfl rfl rfl rfl rfl))
+    issue := fun b _ l r nom h _ _ _ _ _ => h.trans (sendRequest_w b l r true nom)
+    log := fun _ _ _ h => h.trans (W.of ⟨rfl, rfl, rfl⟩ (LK.of_eq rfl rfl rfl rfl rfl rfl rfl rfl rfl rfl rfl)) }
+
+theorem valKeepAuto_w (a : Agent) (hv : ValOK a now) : W T0 now ex a (valKeepAuto a now).1 := by
+  unfold valKeepAuto
+  have h1 := validateSelected_w (T0 := T0) (ex := ex) a hv
+  rcases hk : a.validateSelected now with ⟨a1, o1, ok⟩
+  rw [hk] at h1
+  simp only []
+  split
+  · exact (h1.trans (keepalive_w a1)).trans (autoRenom_w _)
+  · exact h1
+
 theorem contactCandidates_w (a : Agent) (hv : ValOK a now) : W T0 now ex a (a.contactCandidates now).1 := by
   unfold Agent.contactCandidates
   split
   · split
-    · exact valKeep_w a hv
+    · exact valKeepAuto_w a hv
     · split
       · exact nominate_w _ _
       · split
@@ -423,7 +450,7 @@ theorem handleSuccess_lk (a : Agent) (m : Msg) (l r : Cand) (src : Nat) :
             · rw [e] at hi
               exact hi.noDefer { hsMark pd p with nominated := true } (select_mem (id := p.id) hq rfl)
           exact hsSel_cld_sel _ p pd hc hn hd
-        · exact LK.modPair_keep _ p.id (fun p => { p with respRecv := p.respRecv + 1 }) (fun _ => rfl) (fun _ => rfl)
+        · exact LK.modPair_keep _ p.id (Pair.gotResponse now pd.ts) (fun _ => rfl) (fun _ => rfl)
             (fun _ => rfl) (fun _ => rfl) (fun _ => rfl) (fun _ => rfl)
 
 /-! ## the request handlers -/
